@@ -452,7 +452,11 @@ impl Hdr {
         match rand_range(r, sizes.len() + 2) {
             0 => Hdr::Absent,
             1 => Hdr::Empty,
-            k => Hdr::Bytes(rand_bytes(r, sizes[k - 2])),
+            k => {
+                // one in eight: a length at an 8- / 16-bit boundary of any length prefix or counter
+                let n = if rand_range(r, 8) == 0 { [255usize, 256, 65535, 65536, 65537][rand_range(r, 5)] } else { sizes[k - 2] };
+                Hdr::Bytes(rand_bytes(r, n))
+            }
         }
     }
 }
